@@ -76,16 +76,22 @@ def expected_kind(sig, direction, off):
 
 
 def check_op(spec):
+    k = spec[0]
+    try:
+        op = O.build_op(spec)
+    except Exception as e:  # noqa: BLE001
+        return [(f"{k}:build-raised", f"{spec}: constructing raised {type(e).__name__}: {e}")]
+    return check_op_object(op, spec)
+
+
+def check_op_object(op, spec):
+    """All derived facts of an op object against R3 for `spec` (also used by C05 on decoded ops)."""
     from hugr import ops
     from hugr.hugr import Hugr
     from hugr.hugr.node_port import InPort, Node, OutPort
 
     k = spec[0]
     fails = []
-    try:
-        op = O.build_op(spec)
-    except Exception as e:  # noqa: BLE001
-        return [(f"{k}:build-raised", f"{spec}: constructing raised {type(e).__name__}: {e}")]
     sig = O.ref_sig(spec)
 
     def bad(what, msg):
